@@ -13,13 +13,15 @@ TIE = tie.Tie(
     trusted="Go -> Lean translator extract/go2lean (go/ast, fails closed outside its subset; regenerates "
             "Gen/PathNormSrc.lean from the whole bodies of isUnreserved and unhex on every run): trusted to keep the "
             "meaning of the statements it translates; a Go byte is an Int in 0..255, a character constant its number")
-PROP = tie.Prop("HeimdallModel.Props.C08Src", "Heimdall.Props.C08", always=("HeimdallModel.Base.UrlEscape",))
+PROP = tie.Prop("HeimdallModel.Props.C08Src", "Heimdall.Props.C08", always=("HeimdallModel.Lemmas.UrlEscape",))
 
 ASSUMPTION = (
-    "translated source (Gen/PathNormSrc.lean): isUnreserved and unhex are translated and proved equal to the model on "
-    "all 256 bytes; byte arithmetic is integer arithmetic (the subtractions `c - '0'` etc. stand under guards that keep "
-    "them in range); the loop of normalizeUnreserved itself (index loop over the string with look-ahead) is NOT "
-    "translated yet - it is tied by the correspondence run (re-spelled paths)")
+    "translated source (Gen/PathNormSrc.lean): normalizeUnreserved (index loop over the string as recursion on the "
+    "remaining suffix), isUnreserved and unhex are translated and proved equal to the model for all byte strings / all "
+    "256 bytes; a string is a list of bytes, a byte an Int in 0..255, byte arithmetic is integer arithmetic (the "
+    "subtractions and `hi<<4 | lo` stand under guards that keep the operands in range, `byte(x)` is `x % 256`); reads "
+    "beyond the end of the string are not modelled (they yield 0 where Go would panic); what is written to the "
+    "strings.Builder / []byte is the result")
 
 PROGRAM = r"""import HeimdallModel.Gen.PathNormSrc
 import HeimdallModel.Base.UrlEscape
@@ -35,6 +37,19 @@ def main : IO Unit := do
     let m : Int := if isHex c then (Heimdall.unhex c : Int) else -1
     if h != m then
       IO.println s!"\{\"fn\": \"unhex\", \"byte\": {n}, \"src\": {h}, \"model\": {m}}"
+  -- the loop: every string of up to 5 bytes over `% 4 1 a`, alone and behind / in front of an ordinary byte
+  let alphabet : List Nat := [37, 52, 49, 97]
+  let mut words : List (List Nat) := [[]]
+  let mut all : List (List Nat) := []
+  for _ in List.range 5 do
+    words := words.flatMap fun w => alphabet.map fun b => w ++ [b]
+    all := all ++ words
+  for w in all do
+    for v in [w, 120 :: w, w ++ [121]] do
+      let src := PathNorm.Src.normalizeUnreserved (v.map Int.ofNat)
+      let model := (normalizeL (v.map Char.ofNat)).map fun c => (c.toNat : Int)
+      if src != model then
+        IO.println s!"\{\"fn\": \"normalizeUnreserved\", \"w\": {v}, \"src\": {src}, \"model\": {model}}"
 """
 
 UNRESERVED = "abcdefghijklmnopqrstuvwxyzABCDEFGHIJKLMNOPQRSTUVWXYZ0123456789-._~"
@@ -87,10 +102,34 @@ def _report(R, exe):
                     "evaluated: " + log[-500:], dict(payload0, lean_log=log), no_input=True)
         return
     if not rows:
-        R.violation(f"theorems of Props/C08Src.lean no longer check: {named}; on all 256 bytes the translated functions "
-                    "agree with the model", payload0, no_input=True)
+        R.violation(f"theorems of Props/C08Src.lean no longer check: {named}; on all 256 bytes and on 4000 short strings "
+                    "the translated functions agree with the model", payload0, no_input=True)
         return
-    R.coverage["src_search"] = {"bytes_on_which_translation_differs_from_model": len(rows)}
+    R.coverage["src_search"] = {"inputs_on_which_translation_differs_from_model": len(rows)}
+    loop_rows = sorted((r for r in rows if r["fn"] == "normalizeUnreserved"), key=lambda r: len(r["w"]))
+    rows = [r for r in rows if r["fn"] != "normalizeUnreserved"]
+    import re
+    for row in loop_rows[:40]:
+        w = "".join(chr(b) for b in row["w"])
+        lit = "".join(chr(b) for b in row["model"])
+        # a request path net/url accepts: every % starts an escape; the model's result is the literal spelling
+        if re.search(r"%(?![0-9a-fA-F]{2})", w) or "%" in lit or not lit:
+            continue
+        targets = [f"/c08/{lit}", f"/c08/{w}"]
+        rule = lambda rid, path: {"id": rid, "bt": None, "esh": "", "scheme": "", "methods": [], "hosts": [],  # noqa: E731
+                                  "routes": [{"path": path, "pp": []}]}
+        case = {"fam": "repo", "dr": False, "dr_bt": False,
+                "ops": [{"op": "add", "src": "s1", "rules": [rule("A", targets[0]), rule("B", "/**")]}]
+                       + [{"op": "find", "method": "GET", "host": "a.example.com", "target": t} for t in targets]}
+        impl = vlib.run_cases([exe], [case])[0]
+        model = vlib.res_of(vlib.run_cases(vlib.driver_cmd(), [case])[0])
+        if isinstance(impl, list) and len(impl) == 3 and vlib.canon(impl[1]) != vlib.canon(impl[2]):
+            R.violation(f"re-encoding unreserved characters changed the outcome: {targets[0]} -> "
+                        f"{json.dumps(impl[1])[:160]} but {targets[1]} -> {json.dumps(impl[2])[:160]} - translated "
+                        f"normalizeUnreserved({w!r}) = {''.join(chr(b) for b in row['src'])!r}, model {lit!r} "
+                        f"(theorems that no longer check: {named})",
+                        dict(payload0, case=case, impl=impl, model=model, kind="impl-spelling-vs-impl-respelling"))
+            return
     for row in rows[:8]:
         ch, targets = spellings(row)
         if not targets or ch in "/%?#":
@@ -118,6 +157,6 @@ def _report(R, exe):
                         + ": impl " + json.dumps(finds)[:300], dict(payload0, case=case, impl=impl, model=model,
                                                                       kind="impl-vs-model"), no_input=ch in UNRESERVED)
             return
-    R.violation("translated " + ", ".join(sorted({r["fn"] for r in rows})) + f" differ(s) from the model on "
-                f"{len(rows)} byte(s) (theorems that no longer check: {named}); not confirmed through the lookup",
+    R.violation("translated " + ", ".join(sorted({r["fn"] for r in rows + loop_rows})) + f" differ(s) from the model on "
+                f"{len(rows) + len(loop_rows)} input(s) (theorems that no longer check: {named}); not confirmed through the lookup",
                 dict(payload0, rows=rows[:20]), no_input=True)
